@@ -106,17 +106,23 @@ def read_p(p, what='p'):
     return a.astype(np.int64) % 4
 
 
+def _attr(o, name, what):
+    if not hasattr(o, name):
+        raise Mismatch('%s expected, got %s without attribute %r: %r' % (what, type(o).__name__, name, o), 'malformed')
+    return getattr(o, name)
+
+
 def read_pauli(P):
-    g = read_g(P.g, 'Pauli.g')
+    g = read_g(_attr(P, 'g', 'single Pauli'), 'Pauli.g')
     if g.ndim != 1:
         raise Mismatch('Pauli.g has shape %r' % (g.shape,), 'malformed')
-    l, k = ref.from_gp(g, read_p(P.p, 'Pauli.p'))
+    l, k = ref.from_gp(g, read_p(_attr(P, 'p', 'single Pauli'), 'Pauli.p'))
     return l, int(k)
 
 
 def read_list(Lst):
-    g = read_g(Lst.gs, 'gs')
-    p = read_p(Lst.ps, 'ps')
+    g = read_g(_attr(Lst, 'gs', 'Pauli list'), 'gs')
+    p = read_p(_attr(Lst, 'ps', 'Pauli list'), 'ps')
     if g.ndim != 2 or p.shape != (g.shape[0],):
         raise Mismatch('list shapes gs %r ps %r' % (g.shape, p.shape), 'malformed')
     return ref.from_gp(g, p)
